@@ -34,7 +34,8 @@ BoundAt(e, i, h) == CASE e.cls = "pinhole" -> PinBound(e.coef, e.q[i], e.sigma[i
                       [] e.cls = "slitLW" -> LWBound(e.coef, e.q[i], e.L, e.W, h)
 \* (width only with q < W: the window of |q+v| starts at zero; the positive grid must start within
 \* one step of it)
-WinLoAt(e, i, h) == CASE e.cls = "pinhole" -> PinLo(e.q[i], e.sigma[i])
+\* (pinhole windows reaching below zero: the grid is taken at |q| and the library leaves out |q| < 0.02 min(q))
+WinLoAt(e, i, h) == CASE e.cls = "pinhole" -> FMax(PinLo(e.q[i], e.sigma[i]), FAdd(FMul("0.02", e.q[1]), FMul("4.0", h)))
                       [] e.cls = "slitL" -> e.q[i]
                       [] e.cls = "slitW" -> FMax(FSub(e.q[i], e.W), FMul(h, Fudge))
                       [] OTHER -> FSub(e.q[i], e.W)
